@@ -109,7 +109,7 @@ class Builder:
         self.taint.append(t)
         return len(self.prog) - 1
 
-    def conv(self, src, cout=None, dw=False, keep_size=False, k_choices=None, p_bn=None):
+    def conv(self, src, cout=None, dw=False, keep_size=False, k_choices=None, p_bn=None, pad_value=0.):
         rng, dim = self.rng, self.dim
         cin = self.ch[src]
         cout = cin if dw else (cout or rng.choice([2, 3, 4, 5, 6]))
@@ -119,7 +119,7 @@ class Builder:
             K = 1 if unit else rng.choice(k_choices or [1, 2, 3, 4, 5, 6, 7, 9])
             d = 1 if unit else rng.choice([1, 1, 2, 3])
             s = 1 if (keep_size or unit) else rng.choice([1, 1, 1, 2])
-            p = self.add(('pad', src, nn.ConstantPad1d(((K - 1) * d, 0), 0.)), cin, self.sp[src])
+            p = self.add(('pad', src, nn.ConstantPad1d(((K - 1) * d, 0), pad_value)), cin, self.sp[src])
             m = nn.Conv1d(cin, cout, K, stride=s, dilation=d, groups=cin if dw else 1, bias=bias)
         else:
             K = 1 if unit else rng.choice([1, 3])
@@ -173,7 +173,8 @@ def gen_program(rng, dim, opts=None):
             cur = b.add(('cat', [x0, x1]), C0 + C1, T)
             cur = b.conv(cur)
     else:
-        cur = b.conv(x0)
+        # (the network input is never pruned: its causal padding may use any constant)
+        cur = b.conv(x0, pad_value=0. if o.get('unit') else rng.choice([0., 0., 0., -1., .5]))
     for _ in range(rng.randint(1, 4) if o.get('reuse') != 'pool' else rng.randint(0, 1)):
         r = rng.random()
         if r < .30:
